@@ -1113,6 +1113,13 @@ impl CanonicalizeContext {
 					}
 				}
 
+				// a child mrow that consists only of pseudo scripts marked itself -- make it the script of the preceding child
+				if (element_name == "mrow" || ELEMENTS_WITH_ONE_CHILD.contains(element_name)) &&
+				   children.iter().skip(1).any(|child| child.element().is_some_and(|child| child.attribute("data-pseudo-script").is_some())) {
+					handle_pseudo_scripts(mathml);
+					children = mathml.children();
+				}
+
 				// could have deleted children so only one child remains -- need to lift it
 				if element_name == "mrow" && children.len() == 1 && CanonicalizeContext::is_ok_to_merge_mrow_child(mathml) {
 					// "lift" the child up so all the links (e.g., siblings) are correct
@@ -2451,8 +2458,10 @@ impl CanonicalizeContext {
 					return mrow;		// already in a script position
 				}
 				if name(&parent) == "mrow" {
+					// the parent makes this mrow the script of the preceding child after it has cleaned its children (see clean_mathml())
+					// Note: the parent can't be handled here -- the caller is cleaning this child and replaces it with what is returned
 					mrow.set_attribute_value("data-pseudo-script", "true");
-					return handle_pseudo_scripts(parent);
+					return mrow;
 				} else {
 					return mrow;	// FIX: what should happen?
 				}
